@@ -10,6 +10,7 @@
 package main
 
 import (
+	"runtime/debug"
 	"encoding/json"
 	"flag"
 	"fmt"
@@ -81,6 +82,10 @@ func main() {
 	if len(os.Args) < 3 {
 		usage()
 	}
+	// A library change that lets a recursion run away must end as an exhausted step budget
+	// (a verdict), not as Go's fatal "stack overflow" (a dead worker): with the default step
+	// budget the runaway stack stays below ~1.5 GB, so the limit is raised above that.
+	debug.SetMaxStack(3 << 30)
 	cmd, id := os.Args[1], os.Args[2]
 	if cmd == "selftest" {
 		os.Exit(selftest(os.Args[2:]))
